@@ -1170,5 +1170,29 @@ theorem sameComps_of_perm (a b : List Comp) (h : a.Perm b) : sameComps a b = tru
   · exact isortC_sorted _
   · exact (isortC_perm _).trans ((h.filter _).trans (isortC_perm _).symm)
 
+
+/-- after `clear` the abstract successor (nothing live, reserved or issued) and the cleared model world
+are related again, whatever the states before were -/
+theorem rel_clear (s : SpecW) (w : World) : Rel { gens := s.gens, tprev := [] } (w.clear).1 := by
+  refine ⟨⟨by simp, ?_⟩, ⟨?_, ?_⟩⟩
+  · intro e
+    have h1 : (SpecW.flush { gens := s.gens, tprev := [] }).lookup e = none := by simp [SpecW.flush, SpecW.lookup]
+    rw [h1, World.clear_lookup]
+  · intro e h; cases h
+  · intro id; simp [World.genOf, World.clear]
+
+/-- `clear` is an accepted step as soon as the values it drops are, as a multiset, the values the
+abstract state lists -/
+theorem accepts_clear_of_perm (s : SpecW) (w : World)
+    (hp : ((w.clear).2.dropped).Perm (s.live.flatMap (·.2))) :
+    ∃ s', apply s .clear (Hecs.step w .clear).2.res (Hecs.step w .clear).2.dropped = .ok s' ∧
+      Rel s' (Hecs.step w .clear).1 := by
+  refine ⟨{ gens := s.gens, tprev := [] }, ?_, rel_clear s w⟩
+  have h1 : (Hecs.step w .clear) = w.clear := rfl
+  rw [h1]
+  have h2 : (w.clear).2.res = .ok := rfl
+  simp only [apply, h2, sameComps_of_perm _ _ hp]
+  rfl
+
 end Spec
 end Hecs
